@@ -561,6 +561,14 @@ class Ops:
             if isinstance(v, Obj):
                 f, _ = v.cls.lookup('__len__')
                 g, _ = v.cls.lookup('__bool__')
+                it = getattr(self, 'interp', None)
+                if g is not None and it is not None:
+                    from .values import BoundMethod
+                    return self.truth_value(it.call(BoundMethod(v, g), [], {}))
+                if f is not None and it is not None:
+                    from .values import BoundMethod
+                    n = it.call(BoundMethod(v, f), [], {})
+                    return self.truth_value(n)
                 if f is not None or g is not None:
                     raise Unsupported('user __bool__/__len__')
             return True
